@@ -53,7 +53,11 @@ META = {
         "operation trees (SymTree); XdslProofs/C16Lowering.lean proves that the nested-symbol set contains a symbol iff a "
         "symref operation on it lies at ANY depth ≥ 1 below the block, hence a symbol a block forwards (or a block that is "
         "accepted) has no access at any depth below — the scope hypothesis of the straight-line forwarding theorem; the "
-        "real functions are compared with the model on every block of these programs."
+        "real functions are compared with the model on every block of these programs. What range folding and flattening "
+        "accept is exercised by two enumerated families (the other operand of the operation on the induction variable defined "
+        "outside the loop, in its body or in a region nested in the body; loop-carried values of a nest forwarded in every order), "
+        "and every pass output is checked for SSA visibility (a value is used only inside the region that defines it and, within "
+        "one block, after its definition), which the verifier of xDSL does not check."
     ),
     "technique": "translation validation on a Lean reference interpreter + Lean 4 proofs of the loop-arithmetic cores + differential correspondence of the cores with the real passes",
     "level_note": (
@@ -67,7 +71,8 @@ META = {
         "parallel/min, dynamic memrefs and affine.for with operand bounds (lower-affine raises on them) "
         "are outside the generated fragment; convert-scf-to-cf has no scf.while pattern, so scf.while "
         "only occurs as surrounding structure. A pass that raises has not accepted the program (counted). "
-        "64-bit index wrap-around of folded bounds is not explored (bounds are small). affine.apply maps have up to 3 "
+        "SSA visibility of pass outputs is checked without dominance between different blocks of one region (uses across blocks "
+        "are left to the reference semantics). 64-bit index wrap-around of folded bounds is not explored (bounds are small). affine.apply maps have up to 3 "
         "dimensions and 3 symbols (multiplication / mod / floordiv / ceildiv by constants only); affine.load/store maps "
         "have dimensions only (lower-affine hands them no symbols). The model XdslModel/LowerAffine.lean computes on "
         "unbounded integers; its correspondence leg judges values only where every divisor is positive and no mod has "
@@ -84,6 +89,9 @@ META = {
         "distinct-valued arguments; affine.load/store through index-permuting two-result maps on a non-square memref); symref programs "
         "(straight-line and nested to depth ≤ 4; nested also with symbols that have no declaration in the program or declared in a nested block); "
         "the enumerated symref depth family (carrier chains of length ≤ 2 in quick, ≤ 3 in thorough, sampled up to 4; histogram symref.<declared|undeclared>.span<d>.<accepted|rejected>). "
+        "The enumerated decision families: fold_scope (single addi/muli use of the induction variable 0…2 region levels below the loop body, "
+        "other operand defined outside the loop / in the loop body / at every nested level as operation result or block argument) and "
+        "nest_iter (perfect nests carrying 2–3 values, inner initialisation and outer yield in every order, duplicates). "
         "Model lines `symtree`: one per distinct block shape (non-trivial = an operation with regions inside an operation with regions)."
     ),
     "trusted_base": [
@@ -180,11 +188,37 @@ def verdict(src: str, tgt: str) -> str | None:
 # classification of a (shrunk) failing program: a short stable cause, used as the finding signature
 # ------------------------------------------------------------------------------------------------
 
+def nest_forwarding_broken(text: str) -> bool:
+    """does the program contain a perfect scf.for nest with loop-carried values in which the inner loop is not
+    initialised with the outer block arguments position by position, or the outer loop does not yield the inner
+    results position by position (such a nest is not one loop; scf-for-loop-flatten must leave it)"""
+    from xdsl.dialects import scf
+
+    try:
+        m, _ = proggen.parse_module_ctx(text)
+    except Exception:  # noqa: BLE001
+        return False
+    for o in m.walk():
+        if (isinstance(o, scf.ForOp) and o.iter_args and len(o.body.blocks) == 1
+                and isinstance(inner := o.body.block.first_op, scf.ForOp) and inner.next_op is o.body.block.last_op):
+            y = o.body.block.last_op
+            args = o.body.block.args[1:]
+            if (len(inner.iter_args) != len(args) or any(a is not b for a, b in zip(inner.iter_args, args))
+                    or len(y.operands) != len(inner.results) or any(a is not b for a, b in zip(y.operands, inner.results))
+                    or any(len(list(a.uses)) != 1 for a in args)):
+                return True
+    return False
+
+
 def classify(passes: tuple[str, ...], text: str, kind: str) -> tuple[str, str]:
     """(call_site, signature)"""
     last = passes[-1]       # for a pipeline: the shortest failing prefix ends in the pass at fault
     site = SITE[last]
     gk = kind.split(":")[0]
+    if last == "scf-for-loop-flatten" and nest_forwarding_broken(text):
+        return site, "nest flattened although its loop-carried values are not forwarded position by position"
+    if kind.startswith("target-ill-formed: unbound value"):
+        return site, "output invalid: value used outside the region (or before the operation) that defines it"
     if last == "scf-for-loop-flatten":
         used = bool(re.search(r"arith\.addi %i\d+, %i\d+", text))
         return site, ("flattened loop visits a different iteration sequence "
@@ -544,7 +578,7 @@ def report(ctx: core.Ctx, prog: dict[str, Any], passes: tuple[str, ...], vec: li
     if passes[-1] == "lower-affine" and pre_sig.startswith("affine mod") and not (
             pre["modonly"] if "modonly" in pre else only_mod_lowering(prog["text"], passes, prog["arg_types"], vec)):
         pre_sig = "unexplained"
-    if passes[-1] == "scf-for-loop-flatten" and flatten_explained(prog["text"], prog["arg_types"], vec) is False:
+    if passes[-1] == "scf-for-loop-flatten" and pre_sig.startswith("flattened loop visits") and flatten_explained(prog["text"], prog["arg_types"], vec) is False:
         pre_sig = "unexplained"
     key = (pre_site, pre_sig)
     _reported[key] = _reported.get(key, 0) + 1
@@ -566,7 +600,7 @@ def report(ctx: core.Ctx, prog: dict[str, Any], passes: tuple[str, ...], vec: li
     if passes[-1] == "lower-affine" and sig.startswith("affine mod") and not (
             pre["modonly"] if text == prog["text"] and "modonly" in pre else only_mod_lowering(text, passes, prog["arg_types"], vec)):
         sig = k2.split(":")[0] + " (not explained by the mod lowering)"
-    if passes[-1] == "scf-for-loop-flatten" and flatten_explained(text, prog["arg_types"], vec) is False:
+    if passes[-1] == "scf-for-loop-flatten" and sig.startswith("flattened loop visits") and flatten_explained(text, prog["arg_types"], vec) is False:
         sig = k2.split(":")[0] + " (not explained by the known trip-count arithmetic)"
     if RF in passes and (wrap if text == prog["text"] else only_wraparound(text, passes, prog["arg_types"], vec)):
         site, sig = SITE[RF], WRAP_SIG
@@ -582,8 +616,51 @@ def report(ctx: core.Ctx, prog: dict[str, Any], passes: tuple[str, ...], vec: li
              f"source: {s2}; target: {t2}", {"target_run": t2, "program_after_pass": after}, {"source_run": s2})
 
 
+class VisibilityError(Exception):
+    pass
+
+
+def visibility_violation(module: Any) -> str | None:
+    """SSA visibility of every operand, as far as it does not need dominance between blocks: the block that
+    defines the value must belong to a region enclosing the user, and when user (or its ancestor) and definition
+    share a block the definition comes first.  `module.verify()` does not check this; a pass output that
+    breaks it is not a program (the reference semantics reports an unbound value when it gets there)."""
+    from xdsl.ir import Block
+
+    num: dict[int, int] = {}
+    for n, op in enumerate(module.walk()):
+        num[id(op)] = n
+    for op in module.walk():
+        for operand in op.operands:
+            owner = operand.owner
+            dblock = owner if isinstance(owner, Block) else owner.parent
+            if dblock is None:
+                return "output invalid: operand defined by an operation that is not in the module"
+            dregion = dblock.parent
+            anc = op
+            while anc is not None and (anc.parent is None or anc.parent.parent is not dregion):
+                anc = anc.parent_op()
+            if anc is None:
+                return "output invalid: value used outside the region that defines it"
+            if anc.parent is dblock and not isinstance(owner, Block):
+                if owner is anc and op is not anc:
+                    return "output invalid: operation result used inside the operation's own regions"
+                if num[id(owner)] >= num[id(anc)]:
+                    return "output invalid: value used before the operation that defines it"
+    return None
+
+
+def verify_output(m2: Any) -> None:
+    m2.verify()
+    v = visibility_violation(m2)
+    if v is not None:
+        raise VisibilityError(v)
+
+
 def invalid_signature(e: BaseException) -> str:
     msg = str(e)
+    if isinstance(e, VisibilityError):
+        return msg
     if "expected a single block" in msg:
         return "output does not verify: CFG blocks inlined into a single-block region (no scf.while lowering)"
     first = re.sub(r"%[\w.]+", "%v", re.sub(r"\d+", "N", msg.split("\n")[0]))
@@ -598,7 +675,7 @@ def invalid_output(text: str, passes: tuple[str, ...]) -> str | None:
     except Exception:  # noqa: BLE001
         return None
     try:
-        m2.verify()
+        verify_output(m2)
         miniir.serialize(m2)
     except Exception as e:  # noqa: BLE001
         return invalid_signature(e)
@@ -674,6 +751,8 @@ def validate_program(ctx: core.Ctx, batch: Batch, name: str, p: dict[str, Any], 
     try:
         m, xctx = proggen.parse_module_ctx(p["text"])
         src = miniir.serialize(m)
+        if visibility_violation(m) is not None:
+            raise VisibilityError("source")
     except Exception as e:  # noqa: BLE001
         ctx.count(f"generator_rejected.{name}.{core.exc_name(e)}")
         return
@@ -693,7 +772,7 @@ def validate_program(ctx: core.Ctx, batch: Batch, name: str, p: dict[str, Any], 
                 ctx.count(tag + "rejected")
             continue
         try:
-            m2.verify()
+            verify_output(m2)
             tgt = miniir.serialize(m2)
         except Exception as e:  # noqa: BLE001
             ctx.count(f"pass_output_invalid.{pname}.{core.exc_name(e)}")
@@ -733,6 +812,26 @@ def symref_depth_programs(ctx: core.Ctx) -> list[dict[str, Any]]:
     return out
 
 
+def decision_programs(ctx: core.Ctx) -> list[tuple[str, dict[str, Any], list[tuple[str, ...]]]]:
+    """The enumerated families for what the loop passes ACCEPT (proggen.fold_scope_program /
+    nest_iter_program): (family, program, pass tuples).  fold_scope: the single use of the induction variable
+    sits 0…2 region levels below the loop body and its other operand is defined outside the loop, in the loop
+    body or at any nesting level in between (operation results and block arguments) — only the first may be
+    folded into the range.  nest_iter: a perfect nest carrying 2–3 values whose inner loop takes the outer block
+    arguments, and whose outer yield takes the inner results, in every order (and with duplicates) — only the
+    position-by-position forwarding may be flattened."""
+    quick = ctx.tier == "quick"
+    out: list[tuple[str, dict[str, Any], list[tuple[str, ...]]]] = []
+    RF, FL = "scf-for-loop-range-folding", "scf-for-loop-flatten"
+    for n, c in enumerate(proggen.nest_iter_cases(not quick)):
+        passes = [(FL,)] + ([(FL, "scf-for-loop-unroll")] if n % 3 == 0 else [])
+        out.append(("nest_iter", proggen.nest_iter_program(*c), passes))
+    for n, c in enumerate(proggen.fold_scope_cases(2, 1, deep_all=False) if quick else proggen.fold_scope_cases(3, 2)):
+        passes = [(RF,)] + ([("licm", RF)] if n % 4 == 0 else []) + ([(RF, "convert-scf-to-cf")] if n % 4 == 2 else [])
+        out.append(("fold_scope", proggen.fold_scope_program(*c, ub=3 if n % 5 else 1), passes))
+    return out
+
+
 def run_validation(ctx: core.Ctx, reserve_s: float) -> None:
     fams = families(ctx.tier)
     gens: dict[str, Any] = {}
@@ -759,6 +858,12 @@ def run_validation(ctx: core.Ctx, reserve_s: float) -> None:
             break
         validate_program(ctx, batch, "symref_depth", p, [("frontend-desymrefy",)], ingen, nvec, sampled)
     batch.flush()
+    for name, p, passlist in decision_programs(ctx):
+        if left() < 4:      # small and deterministic: not given up for the random rounds' reserve
+            ctx.count("validation.decision_families_cut_by_budget")
+            break
+        validate_program(ctx, batch, name, p, passlist, ingen, nvec, sampled)
+    batch.flush()
     for rnd in range(rounds):
         if left() < reserve_s:
             ctx.count("validation.stopped_by_budget")
@@ -782,7 +887,7 @@ def run(ctx: core.Ctx) -> None:
         c16_models = None  # type: ignore[assignment]
     if c16_models is not None:
         c16_models.run_models(ctx)
-    floor = 40 if ctx.tier == "quick" else 300
+    floor = 50 if ctx.tier == "quick" else 300
     _deadline[0] = time.time() + max(ctx.time_left(), floor)
     run_validation(ctx, reserve_s=12 if ctx.tier == "quick" else 60)
 
@@ -803,7 +908,7 @@ def replay(ctx: core.Ctx, body: dict) -> int:
     print("after", "+".join(passes), ":\n" + str(m2))
     if "args" not in case:
         try:
-            m2.verify()
+            verify_output(m2)
             print("output verifies")
             return 0
         except Exception as e:  # noqa: BLE001
